@@ -2,6 +2,9 @@ import MidnightZK.Model.Common
 import MidnightZK.Model.C13.Tower
 import MidnightZK.Model.C13.Curves
 import MidnightZK.Model.C13.BnPairing
+import MidnightZK.Model.C13.Engine
+import MidnightZK.Model.C13.Ate
+import Std.Data.HashMap
 /-! Line-protocol handler of property C13. -/
 namespace MidnightZK.C13.Driver
 open MidnightZK MidnightZK.C13
@@ -105,16 +108,130 @@ def towerAnswer (level cv op : String) (rest : List String) : String :=
     r.getD "bad-op"
   | _, _ => "bad-op"
 
+/-! ## Pairing-level requests, answered from discrete logarithms
+
+Points are `x·G1`, `y·G2`; `e(xG1, yG2) = gT^(xy)` with `gT = e(G1, G2)`: for BLS12-381 the constant
+`Gt::generator()` of `gt.rs`, for BN254 the value the mirrored Miller loop + final exponentiation
+give on the generators. -/
+
+section
+variable {m : Nat} [NonRes (Zn m)] [NonRes (Quad (Zn m))]
+
+abbrev T12 (m : Nat) := Tower12 (Quad (Zn m))
+
+def gtPow (g : T12 m) (k : Nat) : T12 m := powBits (· * ·) 1 g k
+
+/-- `x1:y1,x2:y2,…` (hex with prefix) or `-`. -/
+def parsePairs (s : String) : Option (List (Nat × Nat)) :=
+  if s = "-" then some [] else
+  (s.splitOn ",").mapM (fun t =>
+    match t.splitOn ":" with
+    | [a, b] => do pure (← parseNat? a, ← parseNat? b)
+    | _ => none)
+
+/-- Product of pairings through the control flow of the engine's `multi_miller_loop`. -/
+def ppModel (bls : Bool) (r : Nat) (gT : T12 m) (pairs : List (Nat × Nat)) : T12 m :=
+  let pairs := pairs.map (fun t => (t.1 % r, t.2 % r))
+  let miller (x y : Nat) : T12 m := gtPow gT (x * y % r)
+  if bls then multiMillerLoopBls (· == 0) (· == 0) miller pairs
+  else (filterIdentityTerms (· == 0) (· == 0) pairs).foldl (fun acc t => acc * miller t.1 t.2) 1
+
+/-- The squaring behind `Gt::double`: blst `fp12_sqr` (specified as `f·f`) / `Fq12::square`. -/
+def gtDouble (bls : Bool) (f : T12 m) : T12 m := if bls then f * f else Quad.sqrK f
+
+def gtOp (bls : Bool) (op : String) (a : T12 m) (b : Option (T12 m)) : Option (T12 m) :=
+  match op, b with
+  | "add", some b => some (a * b)
+  | "sub", some b => some (a * Quad.conj b)
+  | "neg", none => some (Quad.conj a)
+  | "dbl", none => some (gtDouble bls a)
+  | _, _ => none
+end
+
+/-- `e(G1, G2)` of BN254 according to the mirrored code. -/
+def bnGt : BnFq12 :=
+  let g1 : Bn.G1A := some (Zn.ofNat _ Gen.bnG1Gen.1, Zn.ofNat _ Gen.bnG1Gen.2)
+  let g2 : Bn.G2A := some (pairToFq2 Gen.bnG2GenX, pairToFq2 Gen.bnG2GenY)
+  (Bn.pairing g1 g2).getD 1
+
+def fmt12 {m : Nat} (x : T12 m) : String := fmtEl (fp12ToList x)
+
+def pairingAnswer (ws : List String) : Option String :=
+  match ws with
+  | ["pp", cv, _entry, pairs] => do
+    let pairs ← parsePairs pairs
+    match cv with
+    | "bls" => some (fmt12 (ppModel true Gen.blsR Bls.gtGenerator pairs))
+    | "bn" => some (fmt12 (ppModel false Gen.bnR bnGt pairs))
+    | _ => none
+  | ["bilin", cv, a, b, x, y] => do
+    let a ← parseNat? a; let b ← parseNat? b; let x ← parseNat? x; let y ← parseNat? y
+    match cv with
+    | "bls" => some (fmt12 (gtPow Bls.gtGenerator ((a * x % Gen.blsR) * (b * y % Gen.blsR) % Gen.blsR)))
+    | "bn" => some (fmt12 (gtPow bnGt ((a * x % Gen.bnR) * (b * y % Gen.bnR) % Gen.bnR)))
+    | _ => none
+  | ["gtmul", cv, f, k] => do
+    let f ← parseNatList? f; let k ← parseNat? k
+    match cv with
+    | "bls" => do
+      let f ← fp12OfList? Gen.blsP f
+      some (fmt12 (gtMulBits (· * ·) (gtDouble true) 1 f (natToBytesBE 32 k)))
+    | "bn" => do
+      let f ← fp12OfList? Gen.bnP f
+      some (fmt12 (gtMulBits (· * ·) (gtDouble false) 1 f (natToBytesBE 32 k)))
+    | _ => none
+  | "gt" :: cv :: op :: a :: rest => do
+    let a ← parseNatList? a
+    let b ← (match rest with
+      | [] => some none
+      | [b] => (parseNatList? b).map some
+      | _ => none)
+    match cv with
+    | "bls" => do
+      let a ← fp12OfList? Gen.blsP a
+      let b ← (match b with | none => some none | some b => (fp12OfList? Gen.blsP b).map some)
+      (gtOp true op a b).map fmt12
+    | "bn" => do
+      let a ← fp12OfList? Gen.bnP a
+      let b ← (match b with | none => some none | some b => (fp12OfList? Gen.bnP b).map some)
+      (gtOp false op a b).map fmt12
+    | _ => none
+  | ["order", cv, f] => do
+    let f ← parseNatList? f
+    match cv with
+    | "bls" => do
+      let f ← fp12OfList? Gen.blsP f
+      some (fmtBool (gtPow f Gen.blsR == 1))
+    | "bn" => do
+      let f ← fp12OfList? Gen.bnP f
+      some (fmtBool (gtPow f Gen.bnR == 1))
+    | _ => none
+  | _ => none
+
 def answer (line : String) : String :=
   match words line with
   | level :: cv :: op :: rest =>
     if level = "t2" ∨ level = "t6" ∨ level = "t12" then towerAnswer level cv op rest
-    else "bad-op"
-  | _ => "bad-op"
+    else (pairingAnswer (level :: cv :: op :: rest)).getD "bad-op"
+  | ws => (pairingAnswer ws).getD "bad-op"
+
+/-- Cache of `pp` answers: the same list is requested once per entry point. -/
+abbrev Cache := Std.HashMap String String
+
+def answerSt (c : Cache) (line : String) : Cache × String :=
+  match words line with
+  | ["pp", cv, entry, pairs] =>
+    let key := cv ++ " " ++ pairs
+    match c.get? key with
+    | some a => (c, a)
+    | none =>
+      let a := answer ("pp " ++ cv ++ " " ++ entry ++ " " ++ pairs)
+      (c.insert key a, a)
+  | _ => (c, answer line)
 
 end MidnightZK.C13.Driver
 
 /-- `mzk-c13 < ops.txt > model.txt` : one answer line per request line. -/
 def main : IO UInt32 := do
-  MidnightZK.lineLoop (← IO.getStdin) (← IO.getStdout) MidnightZK.C13.Driver.answer
+  MidnightZK.lineLoopSt (← IO.getStdin) (← IO.getStdout) MidnightZK.C13.Driver.answerSt {}
   return 0
